@@ -227,6 +227,7 @@ func cmdVC(args []string) {
 	keep := fs.String("keep", "", "directory to keep SMT files in")
 	only := fs.String("only", "", "only obligations whose name contains this")
 	verbose := fs.Bool("v", false, "print solver output for failures")
+	all := fs.Bool("all", false, "also functions without a contract")
 	fs.Parse(args)
 	w := loadOrDie(*repo)
 	dir := *keep
@@ -250,6 +251,9 @@ func cmdVC(args []string) {
 		for _, fn := range w.repoFunctions() {
 			if strings.Contains(fnKey(fn), pat) {
 				fc := w.contractFor(fn)
+				if fc == nil && !*all {
+					continue
+				}
 				vc := w.NewVC(fn, fc)
 				if err := vc.Generate(); err != nil {
 					fmt.Printf("%s: %v\n", vc.name, err)
